@@ -38,6 +38,7 @@ import (
 	"crypto/sha256"
 	"encoding/json"
 	"fmt"
+	"os"
 	"regexp"
 	"sort"
 	"strconv"
@@ -475,6 +476,14 @@ func runHistory(line []byte) (interface{}, error) {
 			}
 		}
 		ob["rc"] = rc
+		if os.Getenv("IBTP_DEBUG") != "" {
+			var dbg []string
+			for _, tx := range txs {
+				r, _ := c.Ledger.GetReceipt(tx.GetHash())
+				dbg = append(dbg, string(r.Ret))
+			}
+			ob["dbg"] = dbg
+		}
 		// block metadata
 		meta := ev.InterchainMeta
 		var cnt []interface{}
